@@ -316,6 +316,18 @@ class RemoteDispatcher(Dispatcher):
                     continue
             if (not our_prefix) or prefix == our_prefix:
                 try:
+                    document_name = DocumentNames[name]
+                except KeyError as e:
+                    if self._strict:
+                        raise Bluesky0MQDecodeError from e
+                    else:
+                        print(
+                            f"The name {name} is not a known document name. "
+                            "Dropping message on the floor and continuing. "
+                            f"\n\n{e}"
+                        )
+                        continue
+                try:
                     doc = self._deserializer(doc)
                 except Exception as e:
                     if self._strict:
@@ -332,7 +344,7 @@ class RemoteDispatcher(Dispatcher):
                             f"\n\n{e}"
                         )
                         continue
-                self.loop.call_soon(self.process, DocumentNames[name], doc)
+                self.loop.call_soon(self.process, document_name, doc)
 
     def start(self):
         if self.closed:
